@@ -263,6 +263,7 @@ PURE_EXTERNAL = {
     "collections.OrderedDict": lambda *a, **k: dict(*a, **k),
     "collections.Counter": lambda *a, **k: __import__("collections").Counter(*a, **k),
     "collections.deque": lambda *a, **k: __import__("collections").deque(*a, **k),
+    "sys.getrecursionlimit": lambda: 1000,
     "difflib.get_close_matches": lambda w, poss, *a, **k: __import__("difflib").get_close_matches(str(w), [str(p_) for p_ in poss], *a, **k),
     "urllib.parse.urlparse": lambda u, *a, **k: __import__("urllib.parse").parse.urlparse(str(u), *a, **k),
     "urllib.parse.urlsplit": lambda u, *a, **k: __import__("urllib.parse").parse.urlsplit(str(u), *a, **k),
